@@ -215,4 +215,47 @@ theorem shredFieldsOK : ∀ fields : List (Key × Schema), wfSFields fields = tr
         exact hmap
 end
 
+
+/-! ### leaf values of typed_value columns -/
+
+theorem setWidth_signExtend8 (x : BitVec 8) : (x.signExtend 32).setWidth 8 = x := by
+  apply BitVec.eq_of_getLsbD_eq
+  intro i hi
+  simp [BitVec.getLsbD_signExtend, hi]
+  omega
+
+theorem setWidth_signExtend16 (x : BitVec 16) : (x.signExtend 32).setWidth 16 = x := by
+  apply BitVec.eq_of_getLsbD_eq
+  intro i hi
+  simp [BitVec.getLsbD_signExtend, hi]
+  omega
+
+theorem be16ToNat_beN (n : Nat) (h : n < 256 ^ 16) : be16ToNat (beN 16 n) = n := by
+  unfold be16ToNat beN
+  simp only [List.length_reverse, leN_length, Nat.sub_self, List.replicate_zero, List.append_nil,
+    List.reverse_reverse]
+  exact unLE_leN 16 n h
+
+theorem toCol_isSome (t : PType) (p : Prim) : (toCol t p).isSome = matchesP t p := by
+  cases t <;> cases p <;> simp [toCol, matchesP] <;> split <;> simp_all
+
+/-- the leaf value written for a matching primitive reads back as that primitive -/
+theorem ofCol_toCol' (t : PType) (p : Prim) (c : ColVal) (h : toCol t p = some c) :
+    ofCol t c = some p := by
+  cases t <;> cases p <;> simp only [toCol, reduceCtorEq] at h
+  all_goals first
+    | (cases h; simp [ofCol, setWidth_signExtend8, setWidth_signExtend16]; done)
+    | skip
+  · -- uuid
+    cases h
+    rename_i x
+    simp [ofCol, beN, unLE_leN 16 x.toNat (bv128 x)]
+  all_goals
+    split at h
+    · rename_i hc
+      simp only [Bool.and_eq_true, decide_eq_true_eq] at hc
+      cases h
+      simp [ofCol, hc.1, beN, be16ToNat, unLE_leN 16 _ (bv128 _)]
+    · cases h
+
 end PqModel.Variant
